@@ -169,6 +169,8 @@ enum MP {
 struct Scan {
     s: Vec<char>,
     i: usize,
+    /// also accept `_` inside names (the proposed repair of F5); the scan is run both ways
+    underscore: bool,
 }
 
 impl Scan {
@@ -193,7 +195,7 @@ impl Scan {
             _ => return n,
         }
         while let Some(c) = self.peek() {
-            if c.is_alphanumeric() {
+            if c.is_alphanumeric() || (self.underscore && c == '_') {
                 n.push(c);
                 self.i += 1;
             } else {
@@ -344,13 +346,15 @@ fn collect_formats(ps: &[MP], out: &mut Vec<String>) {
 }
 
 pub fn date_formats(pattern: &str) -> Vec<String> {
-    let mut sc = Scan { s: pattern.chars().collect(), i: 0 };
-    let mut ps = vec![];
-    while let Some(p) = sc.next() {
-        ps.push(p);
-    }
     let mut out = vec![];
-    collect_formats(&ps, &mut out);
+    for underscore in [false, true] {
+        let mut sc = Scan { s: pattern.chars().collect(), i: 0, underscore };
+        let mut ps = vec![];
+        while let Some(p) = sc.next() {
+            ps.push(p);
+        }
+        collect_formats(&ps, &mut out);
+    }
     out
 }
 
